@@ -20,8 +20,7 @@ same dynamic chain as the target model (they coincide with lexical scoping on te
 unique names and whose defs are not recursive).
 
 Intended-semantics choices where mako's generated code is quirky (the generator `gen_template.py` stays away
-from these; they are recorded for C05/C03): `caller.x()` evaluated inside a `<%call expr>` does not see the pending caller; a nested def that is both
-`buffered` and `cached` returns its content; `return` inside a buffered def keeps the content.
+from these; they are recorded for C05/C03): `caller.x()` evaluated inside a `<%call expr>` does not see the pending caller; `return` inside a buffered def keeps the content.
 -/
 namespace MakoModel.Codegen.Spec
 open MakoModel.Target MakoModel.Codegen
